@@ -486,9 +486,9 @@ def adversarial(case):
 
 def shards(tier, seed):
     n = 16
-    per = 4000 if tier == 'thorough' else 500
+    per = 4000 if tier == 'thorough' else 1200
     return [{'kind': k, 'shard': i, 'n': per} for i in range(n // 2) for k in ('nested', 'arbitrary')] + \
-        [{'kind': 'validated', 'shard': i, 'n': 80 if tier == 'thorough' else 12} for i in range(8)]
+        [{'kind': 'validated', 'shard': i, 'n': 80 if tier == 'thorough' else 24} for i in range(8)]
 
 
 def run_shard(spec, seed, tier):
